@@ -1,6 +1,10 @@
 package main
 
 import (
+	"strings"
+
+	jd "github.com/josephburnett/jd/v2"
+
 	"jdv/codec"
 	"jdv/drive"
 )
@@ -221,6 +225,28 @@ func drivePT(p *Plan, shard int, w *Writer, t *codec.Table) {
 					sd := d2[:0:0]
 					for _, ix := range sub[:k] {
 						sd = append(sd, d2[ix])
+					}
+					if tno%3 == 0 {
+						// every third target gets the hunks as a hand-edited TEXT: rendered, the final line end cut off
+						// (or a blank line put in front), and read back
+						var rd jd.Diff
+						rr := drive.Guard(func() drive.Res {
+							txt := strings.TrimSuffix(sd.Render(), "\n")
+							if tno%2 == 0 {
+								txt = "\n" + txt + "\n"
+							}
+							x, err := drive.ReadDiffAny(txt)
+							if err != nil {
+								return drive.Res{St: "err", Msg: "reading the hunks as text: " + err.Error()}
+							}
+							rd = x
+							return drive.Res{St: "ok"}
+						})
+						if rr.St != "ok" {
+							w.Emit(shard, Rec{"sess": id, "op": "PatchStep", "k": k, "res": drive.Res{St: "panic", Msg: rr.Msg}})
+							break
+						}
+						sd = rd
 					}
 					_, rk := v.Patch(c, sd, false)
 					w.Emit(shard, Rec{"sess": id, "op": "PatchStep", "k": k, "res": rk})
